@@ -60,6 +60,7 @@ type workerOut struct {
 	Runs       int                `json:"runs"`
 	Digest     string             `json:"digest"`
 	RunDigests []string           `json:"run_digests"`
+	SimDigests []string           `json:"sim_digests"` // PRNG draws and events only
 }
 
 func runWorker(spec *props.Spec, tier string, seed uint64, offset, stride, runs int) *workerOut {
@@ -99,6 +100,7 @@ func runWorker(spec *props.Spec, tier string, seed uint64, offset, stride, runs 
 		}
 		dig.WriteString(one)
 		out.RunDigests = append(out.RunDigests, core.Hash([]byte(one))[:12])
+		out.SimDigests = append(out.SimDigests, core.Hash([]byte(fmt.Sprintf("%d:%d:%d:%d", i, r.Draws, cov.Evaluations-ev0, cov.Steps-st0)))[:12])
 	}
 	out.Distinct = props.SortedKeys(cov.Distinct)
 	out.Inputs = props.SortedKeys(cov.Inputs)
@@ -197,6 +199,7 @@ func replay(path string) int {
 			Stride int    `json:"stride"`
 			Runs   int    `json:"runs"`
 			Index  int    `json:"index_in_sequence"`
+			Procs  string `json:"procs"`
 		}
 		json.Unmarshal(rf.Case.Extra, &ex)
 		self, _ := os.Executable()
@@ -218,7 +221,12 @@ func replay(path string) int {
 			wp = "2"
 		}
 		seq := digest([]string{"worker", rf.Property, ex.Tier, fmt.Sprint(rf.Seed), "0", fmt.Sprint(ex.Stride), fmt.Sprint(ex.Runs)}, "GOMAXPROCS="+wp, fmt.Sprintf("VERIF_SELFTEST_LIMIT=%d", ex.Index+1))
-		alone := digest([]string{"worker", rf.Property, ex.Tier, fmt.Sprint(rf.Seed), fmt.Sprint(rf.Run), "1000000000", fmt.Sprint(ex.Runs)}, "GOMAXPROCS="+wp)
+		var alone string
+		if ex.Procs != "" {
+			alone = digest([]string{"worker", rf.Property, ex.Tier, fmt.Sprint(rf.Seed), "0", fmt.Sprint(ex.Stride), fmt.Sprint(ex.Runs)}, "GOMAXPROCS="+ex.Procs, fmt.Sprintf("VERIF_SELFTEST_LIMIT=%d", ex.Index+1))
+		} else {
+			alone = digest([]string{"worker", rf.Property, ex.Tier, fmt.Sprint(rf.Seed), fmt.Sprint(rf.Run), "1000000000", fmt.Sprint(ex.Runs)}, "GOMAXPROCS="+wp)
+		}
 		if seq != alone {
 			fmt.Printf("replay: run %d: digest %s as the %d-th run of a process, %s alone\nREPRODUCED property=%s clause=%s\n", rf.Run, seq, ex.Index+1, alone, rf.Property, rf.Clause)
 			return 1
@@ -403,6 +411,14 @@ func orchestrate(prop, tier string) int {
 			}
 			for i := 0; i < k; i++ {
 				if i >= len(o.RunDigests) || o.RunDigests[i] != outs[0].RunDigests[i] {
+					if spec.IsolationClause != "" && i < len(o.SimDigests) && o.SimDigests[i] == outs[0].SimDigests[i] {
+						// same PRNG draws and events, different results: the library's
+						// outcome depends on the process / its GOMAXPROCS
+						ex, _ := json.Marshal(map[string]any{"tier": tier, "stride": workers, "runs": runs, "index_in_sequence": i, "procs": procs})
+						all = append(all, &props.Violation{Prop: prop, Clause: spec.IsolationClause, Msg: fmt.Sprintf("run %d gives a different result digest in a fresh process with GOMAXPROCS=%s (same PRNG draws and events): the outcome depends on scheduling or on the process", i*workers, procs),
+							Case: &props.Case{Prop: prop, Seed: seed, Run: uint64(i * workers), Mode: "isolation", Extra: ex}})
+						break
+					}
 					infra = append(infra, fmt.Errorf("simulator nondeterminism: run #%d of worker 0 gives a different event digest when repeated in a fresh process with GOMAXPROCS=%s", i, procs))
 					break
 				}
